@@ -2,6 +2,7 @@
    implementation (harness/cmd/c14).  Executable only. *)
 From Coq Require Import List ZArith Bool.
 From GZ Require Export Lib.CheckLib C14.Model.
+From GZgen Require Import C14Consts.
 Import ListNotations.
 Open Scope Z_scope.
 
@@ -15,33 +16,65 @@ Record eobs := mkE
     e_same : bool;       (* err == the very error value the body returned *)
     e_recover : bool;    (* text starts with "recover from " *)
     e_txfailed : bool;   (* text starts with "transaction failed: <body error>, rollback failed: " *)
-    e_canceled : bool }. (* errors.Is(err, context.Canceled) *)
+    e_canceled : bool;   (* errors.Is(err, context.Canceled) *)
+    e_txdone : bool;     (* errors.Is(err, sql.ErrTxDone) *)
+    e_noconn : bool;     (* errors.Is(err, <the connection provider's error>) *)
+    e_nest : bool }.     (* text contains "cannot nest transactions" *)
+
+(* how the call ended, as seen by the caller *)
+Inductive robs :=
+| ORet (e : eobs)     (* it returned *)
+| OPanicked           (* it panicked *)
+| ONever              (* its goroutine exited *)
+| OOpen               (* still in the body when the run stopped *)
+| ONotStarted.
+
+Record tobs := mkT
+  { o_ret : robs;
+    o_runs : Z;                  (* invocations of the body *)
+    o_body : option bout;        (* how the body ended, recorded by the body itself *)
+    o_inuse : Z;                 (* sql.DB connections checked out when the call had ended *)
+    o_nest : Z;                  (* invocations of bodies handed to a Transact on the transaction's session *)
+    o_self : bool;               (* the body itself called Commit / Rollback on the transaction *)
+    o_acc : Z;                   (* calls of the user's WithAcceptable functions *)
+    o_accsame : bool }.          (* ... each with the very error that was returned *)
 
 Record case := mkCase
-  { cin : input;                (* fault plan; [ibrk] is the observed breaker verdict *)
-    olog : list logent;         (* what the fake driver logged *)
-    oruns : Z;                  (* invocations of the body *)
-    obody : option bout;        (* how the body ended, recorded by the body itself *)
-    oerr : eobs;
-    oinuse : Z }.               (* sql.DB connections still checked out afterwards *)
+  { cguard : bool;               (* the tree guards the commit against a body that never returned (GZgen) *)
+    cscripts : list script;      (* [sbrk], [sconn] as observed *)
+    csched : list nat;           (* the schedule that was forced *)
+    coracle : list reply;        (* the driver's script *)
+    olog : list logent;          (* what the driver logged *)
+    oths : list tobs;
+    ofinal : Z }.                (* connections checked out of the pools when the run was over *)
 
+(* ---- equality tests --------------------------------------------------------- *)
+Definition outcome_eqb (a b : outcome) : bool :=
+  match a, b with OOk, OOk | OFail, OFail | OPanic, OPanic => true | _, _ => false end.
+Definition skind_eqb (a b : skind) : bool :=
+  match a, b with
+  | KExec, KExec | KQuery, KQuery | KPrepare, KPrepare | KStmtExec, KStmtExec => true
+  | _, _ => false
+  end.
 Definition call_eqb (a b : call) : bool :=
   match a, b with
   | CBegin, CBegin | CCommit, CCommit | CRollback, CRollback => true
-  | CExec j, CExec k => j =? k
+  | CStmt j x, CStmt k y => (j =? k) && skind_eqb x y
   | _, _ => false
   end.
 Definition logent_eqb (a b : logent) : bool :=
-  call_eqb (fst a) (fst b) && Bool.eqb (snd a) (snd b).
+  Nat.eqb (etid a) (etid b) && (econn a =? econn b) && call_eqb (ecall a) (ecall b) &&
+  outcome_eqb (eout a) (eout b).
 Definition berr_eqb (a b : berr) : bool :=
   match a, b with
   | BUser, BUser => true
-  | BStmt j, BStmt k | BCtx j, BCtx k => j =? k
+  | BStmt j, BStmt k | BCtx j, BCtx k | BTxDone j, BTxDone k | BNest j, BNest k
+  | BSelfC j, BSelfC k | BSelfR j, BSelfR k => j =? k
   | _, _ => false
   end.
 Definition bout_eqb (a b : bout) : bool :=
   match a, b with
-  | BNil, BNil | BPanic, BPanic => true
+  | BNil, BNil | BPanic, BPanic | BGoexit, BGoexit => true
   | BErr x, BErr y => berr_eqb x y
   | _, _ => false
   end.
@@ -50,34 +83,80 @@ Definition eobs_eqb (a b : eobs) : bool :=
   Bool.eqb (e_begin a) (e_begin b) && Bool.eqb (e_commit a) (e_commit b) &&
   Bool.eqb (e_rollback a) (e_rollback b) && Bool.eqb (e_same a) (e_same b) &&
   Bool.eqb (e_recover a) (e_recover b) && Bool.eqb (e_txfailed a) (e_txfailed b) &&
-  Bool.eqb (e_canceled a) (e_canceled b).
+  Bool.eqb (e_canceled a) (e_canceled b) && Bool.eqb (e_txdone a) (e_txdone b) &&
+  Bool.eqb (e_noconn a) (e_noconn b) && Bool.eqb (e_nest a) (e_nest b).
+Definition robs_eqb (a b : robs) : bool :=
+  match a, b with
+  | ORet x, ORet y => eobs_eqb x y
+  | OPanicked, OPanicked | ONever, ONever | OOpen, OOpen | ONotStarted, ONotStarted => true
+  | _, _ => false
+  end.
+Definition tobs_eqb (a b : tobs) : bool :=
+  robs_eqb (o_ret a) (o_ret b) && (o_runs a =? o_runs b) && opt_eqb bout_eqb (o_body a) (o_body b) &&
+  (o_inuse a =? o_inuse b) && (o_nest a =? o_nest b) && Bool.eqb (o_self a) (o_self b) &&
+  (o_acc a =? o_acc b) && Bool.eqb (o_accsame a) (o_accsame b).
 
-(* the facts the harness would read off each error term of the model *)
-Definition is_bctx (b : berr) : bool := match b with BCtx _ => true | _ => false end.
-Definition facts (e : err) : eobs :=
-  match e with
-  | ENil                => mkE true  false false false false false false false false
-  | EUnavailable        => mkE false true  false false false false false false false
-  | ECanceled           => mkE false false false false false false false false true
-  | EBegin              => mkE false false true  false false false false false false
-  | EBody b             => mkE false false false false false true  false false (is_bctx b)
-  | ECommit             => mkE false false false true  false false false false false
-  | ERecover            => mkE false false false false false false true  false false
-  | ERecoverRollback    => mkE false false false false true  false true  false false
-  | ETxFailedRollback _ => mkE false false false false true  false false true  false
+(* ---- what the harness would read off the model ------------------------------- *)
+Definition noE : eobs := mkE false false false false false false false false false false false false.
+
+Definition cause_facts (c : ecause) (e : eobs) : eobs :=
+  match c with
+  | DrvCommit => mkE (e_nil e) (e_unavail e) (e_begin e) true (e_rollback e) (e_same e) (e_recover e)
+                     (e_txfailed e) (e_canceled e) (e_txdone e) (e_noconn e) (e_nest e)
+  | DrvRollback => mkE (e_nil e) (e_unavail e) (e_begin e) (e_commit e) true (e_same e) (e_recover e)
+                       (e_txfailed e) (e_canceled e) (e_txdone e) (e_noconn e) (e_nest e)
+  | TxDone => mkE (e_nil e) (e_unavail e) (e_begin e) (e_commit e) (e_rollback e) (e_same e) (e_recover e)
+                  (e_txfailed e) (e_canceled e) true (e_noconn e) (e_nest e)
   end.
 
-(* the model reproduces exactly what the implementation did *)
-Definition agrees (c : case) : bool :=
-  let r := transact (cin c) in
-  list_eqb logent_eqb (rlog r) (olog c) &&
-  (rruns r =? oruns c) &&
-  opt_eqb bout_eqb (rbody r) (obody c) &&
-  eobs_eqb (facts (rerr r)) (oerr c) &&
-  (oinuse c =? 0).
+Definition berr_facts (b : berr) : eobs :=
+  (*                         nil   unav  begin commit rollb same rec   txf   canc  done  noc   nest *)
+  match b with
+  | BUser | BStmt _ => mkE false false false false false true false false false false false false
+  | BCtx _          => mkE false false false false false true false false true  false false false
+  | BTxDone _       => mkE false false false false false true false false false true  false false
+  | BNest _         => mkE false false false false false true false false false false false true
+  | BSelfC _        => mkE false false false true  false true false false false false false false
+  | BSelfR _        => mkE false false false false true  true false false false false false false
+  end.
+
+Definition facts (e : err) : eobs :=
+  match e with
+  | ENil            => mkE true  false false false false false false false false false false false
+  | EUnavailable    => mkE false true  false false false false false false false false false false
+  | ECanceled       => mkE false false false false false false false false true  false false false
+  | ENoConn         => mkE false false false false false false false false false false true  false
+  | EBegin          => mkE false false true  false false false false false false false false false
+  | EBody b         => berr_facts b
+  | ECommit c       => cause_facts c noE
+  | ERecover None   => mkE false false false false false false true  false false false false false
+  | ERecover (Some c) => cause_facts c (mkE false false false false false false true false false false false false)
+  | ETxFailed _ c   => cause_facts c (mkE false false false false false false false true false false false false)
+  end.
+
+(* commonSqlConn.acceptable consults the user's functions for a non-nil error that is not
+   one of sql.ErrNoRows / sql.ErrTxDone / context.Canceled; the breaker asks it only for calls
+   it let through and that returned *)
+Definition consults (e : err) : bool :=
+  match e with
+  | ENil | EUnavailable | ECanceled => false
+  | _ => negb ((gen_acc_canceled && e_canceled (facts e)) || (gen_acc_txdone && e_txdone (facts e)))
+  end.
+
+Definition robs_of (r : ret) : robs :=
+  match r with RetErr e => ORet (facts e) | RetPanic => OPanicked | RetNever => ONever end.
+
+Definition tobs_of (th : thread) : tobs :=
+  match tst th with
+  | TIdle => mkT ONotStarted 0 None 0 0 false 0 true
+  | TBody _ _ _ done => mkT OOpen 1 None 0 0 done 0 true
+  | TDone r =>
+    let acc := match rret r with RetErr e => if consults e then sacc (tsc th) else 0 | _ => 0 end in
+    mkT (robs_of (rret r)) (rruns r) (rbody r) (tinuse th) 0 (rself r) acc true
+  end.
 
 (* ---- the property, evaluated on the observed driver log --------------------
-   Written against the log itself; it does not call [transact]. *)
+   Written against the log itself; it does not run the model. *)
 Fixpoint split_last {A} (l : list A) : option (list A * A) :=
   match l with
   | [] => None
@@ -88,38 +167,132 @@ Fixpoint split_last {A} (l : list A) : option (list A * A) :=
                end
   end.
 
-Definition prop_ok (c : case) : bool :=
-  let e := oerr c in
-  match olog c with
-  | [] =>
-    (* no transaction at all: only when the context was already cancelled or the breaker
-       refused the call; the body did not run and the caller is told *)
-    negb (let_through (cin c)) && (oruns c =? 0) && negb (e_nil e)
-  | (CBegin, false) :: rest =>
-    (* cannot begin: nothing else reaches the driver, the body is not run *)
-    match rest with [] => true | _ => false end && (oruns c =? 0) && negb (e_nil e)
-  | (CBegin, true) :: rest =>
-    (oruns c =? 1) &&
-    match split_last rest, obody c with
-    | Some (mid, (last, ok)), Some o =>
-      (* between Begin and the end only statements; the end is one Commit or Rollback *)
-      forallb (fun x => is_exec (fst x)) mid && is_end last &&
-      (* commit iff the body returned nil; error or panic: rollback *)
-      match o with
-      | BNil => is_commit last
-      | BErr _ | BPanic => is_rollback last
-      end &&
-      (* a panic is reported *)
-      match o with BPanic => negb (e_nil e) | _ => true end &&
-      (* nil only when the commit succeeded *)
-      (if e_nil e then is_commit last && ok else true) &&
-      (* a failed commit / rollback is visible in the returned error *)
-      (if ok then true
-       else negb (e_nil e) && (if is_commit last then e_commit e else e_rollback e))
-    | _, _ => false
+Definition ret_nil (r : robs) : bool := match r with ORet e => e_nil e | _ => false end.
+Definition ret_err (r : robs) : bool := match r with ORet e => negb (e_nil e) | _ => false end.
+Definition is_goexit (o : bout) : bool := match o with BGoexit => true | _ => false end.
+
+(* the end call made by Transact's deferred function, for a body that ended with [bo] *)
+Definition end_ok (bo : bout) (e : logent) (r : robs) : bool :=
+  (* commit iff the body returned nil; error, panic, goroutine exit: rollback *)
+  match bo with BNil => is_commit (ecall e) | _ => is_rollback (ecall e) end &&
+  (* a failed commit / rollback is visible in the returned error; a panicking one is not
+     turned into a normal return *)
+  match eout e with
+  | OOk => true
+  | OFail =>
+    match r with
+    | ORet x => negb (e_nil x) && (if is_commit (ecall e) then e_commit x else e_rollback x)
+    | ONever => is_goexit bo
+    | _ => false
     end
-  | _ => false
+  | OPanic => match r with OPanicked => true | _ => false end
   end.
 
+(* a call that has ended, after a successful Begin; [rest] = its driver calls after the Begin *)
+Definition finished_ok (rest : list logent) (o : tobs) : bool :=
+  match split_last rest, o_body o with
+  | Some (mid, e), Some bo =>
+    (* between Begin and the end only statements; the end is one Commit or Rollback, and
+       nothing reaches the driver after it *)
+    forallb ent_stmt mid && ent_end e &&
+    (* ... made by Transact, unless the body ended the transaction itself *)
+    (o_self o || end_ok bo e (o_ret o)) &&
+    (* a panic is reported *)
+    match bo with BPanic => negb (ret_nil (o_ret o)) | _ => true end &&
+    (* only a call whose body exited the goroutine does not come back *)
+    match o_ret o with ONever => is_goexit bo | _ => true end &&
+    (* nil only when the commit succeeded *)
+    (if ret_nil (o_ret o) then is_commit (ecall e) && outcome_eqb (eout e) OOk else true)
+  | _, _ => false
+  end.
+
+(* a call that is still in its body: the transaction is open (or was ended by the body) *)
+Definition open_ok (rest : list logent) (o : tobs) : bool :=
+  match o_body o with
+  | Some _ => false
+  | None =>
+    if o_self o then
+      match split_last rest with
+      | Some (mid, e) => forallb ent_stmt mid && ent_end e
+      | None => false
+      end
+    else forallb ent_stmt rest
+  end.
+
+(* one transaction: [tr] = the driver calls made on its behalf, in order *)
+Definition prop_thread (sc : script) (tr : list logent) (o : tobs) : bool :=
+  (* a body handed to a Transact on the transaction's own session is never run *)
+  (o_nest o =? 0) &&
+  match tr with
+  | [] =>
+    (* no transaction at all: only when the call was refused (context already cancelled, breaker,
+       no connection) or never made; the body did not run and the caller is not told "nil" *)
+    (o_runs o =? 0) && negb (ret_nil (o_ret o)) &&
+    match o_ret o with ONotStarted => true | OOpen => false | _ => negb (let_through sc) end
+  | b :: rest =>
+    ent_begin b &&
+    (* everything on the connection of the Begin *)
+    forallb (fun e => econn e =? econn b) rest &&
+    match eout b with
+    | OOk =>
+      (o_runs o =? 1) &&
+      match o_ret o with
+      | ONotStarted => false
+      | OOpen => open_ok rest o
+      | _ => finished_ok rest o
+      end
+    | _ =>
+      (* cannot begin: nothing else reaches the driver, the body is not run, an error comes back *)
+      match rest with [] => true | _ => false end && (o_runs o =? 0) && ret_err (o_ret o)
+    end
+  end.
+
+Fixpoint prop_threads (t : nat) (scs : list script) (os : list tobs)
+  (log : list logent) : bool :=
+  match scs, os with
+  | [], [] => true
+  | sc :: scs', o :: os' =>
+    prop_thread sc (proj t log) o && prop_threads (S t) scs' os' log
+  | _, _ => false
+  end.
+
+(* ---- ... and on the log as a whole, whoever made the calls and whatever the callers were told:
+   on every connection, as many Commit/Rollback as successful Begin (plus the transactions that
+   are still open), and no connection stays checked out -- except those lost to a driver whose
+   Commit / Rollback panicked *)
+Definition still_open (o : tobs) : bool :=
+  match o_ret o with OOpen => negb (o_self o) | _ => false end.
+
+Fixpoint open_on (c : Z) (scs : list script) (os : list tobs) : Z :=
+  match scs, os with
+  | sc :: scs', o :: os' => (if still_open o && (sconn sc =? c) then 1 else 0) + open_on c scs' os'
+  | _, _ => 0
+  end.
+
+Definition conn_balanced (scs : list script) (os : list tobs) (log : list logent) (c : Z) : bool :=
+  Z.of_nat (count (fun e => on_conn c e && begun_ok e) log) =?
+  Z.of_nat (count (fun e => on_conn c e && ent_end e) log) + open_on c scs os.
+
+Definition log_balanced (scs : list script) (os : list tobs) (log : list logent) : bool :=
+  forallb (fun e => conn_balanced scs os log (econn e)) log.
+
+Definition pool_ok (c : case) : bool :=
+  ofinal c =? Z.of_nat (count lostb (olog c)) + Z.of_nat (length (filter still_open (oths c))).
+
+Definition prop_ok (c : case) : bool :=
+  prop_threads 0 (cscripts c) (oths c) (olog c) &&
+  (* no driver call on behalf of nobody *)
+  forallb (fun e => Nat.ltb (etid e) (length (cscripts c))) (olog c) &&
+  log_balanced (cscripts c) (oths c) (olog c) && pool_ok c.
+
+(* ---- the model reproduces exactly what the implementation did ------------------ *)
+Definition model_world (c : case) : world := exec (cguard c) (cscripts c) (csched c) (coracle c).
+
+Definition agrees (c : case) : bool :=
+  let w := model_world c in
+  list_eqb logent_eqb (wlog w) (olog c) &&
+  list_eqb tobs_eqb (map tobs_of (wthreads w)) (oths c) &&
+  (count_open (wthreads w) + wleaks w =? ofinal c).
+
 Definition model_obs (c : case) :=
-  let r := transact (cin c) in (rlog r, rruns r, rbody r, facts (rerr r)).
+  let w := model_world c in (wlog w, map tobs_of (wthreads w), wleaks w).
